@@ -3,6 +3,7 @@
 set -e
 cd /verif
 b=$1
+git checkout -- evidence 2>/dev/null || true
 git merge --no-edit worktree-agent-$b 2>&1 | grep -E "CONFLICT|Merge made|Already" || true
 for f in $(git diff --name-only --diff-filter=U); do
   case "$f" in evidence/*|known_findings.json|MANIFEST.json) git checkout --ours "$f"; git add "$f";; *) echo "UNRESOLVED $f"; exit 1;; esac
